@@ -100,6 +100,8 @@ def _driver(cfg, pup_argv, res_fd):
                 return lambda b: b + b
             if kind == 'drop-x':
                 return lambda b: b.replace(b'x', b'')
+            if kind == 'grow-a':
+                return lambda b: b.replace(b'a', b'aaa')
             return None
         esc = cfg.get('escape', '\x1d')
         ps.os = OsProxy()
